@@ -106,6 +106,18 @@ def clearedIds : State → List Op → List Nat
   | s, .clear :: rest => (clearFreed s).map (·.id) ++ clearedIds (clear s) rest
   | s, op :: rest => clearedIds (step s op) rest
 
+/-- the results (true = NULL) of all allocations of a history executed from state `s`, chronological -/
+def outcomes : State → List Op → List Bool
+  | _, [] => []
+  | s, .alloc f l :: rest => allocFails s f l :: outcomes (allocState s f l) rest
+  | s, op :: rest => outcomes (step s op) rest
+
+/-- what the property demands of them, computed from the calls alone: `pre` = the calls made before -/
+def designatedOutcomes (pre : List Op) : List Op → List Bool
+  | [] => []
+  | .alloc f l :: rest => designatedB pre f l :: designatedOutcomes (pre ++ [.alloc f l]) rest
+  | op :: rest => designatedOutcomes (pre ++ [op]) rest
+
 /-- well-formed state: ids of linked nodes are distinct and below `nextId` -/
 def WF (s : State) : Prop := (s.nodes.map (·.id)).Nodup ∧ ∀ nd ∈ s.nodes, nd.id < s.nextId
 
